@@ -667,7 +667,7 @@ pub fn generate(prop: &str, seed: u64, idx: u64, tier: Tier) -> Plan {
 
 pub fn budget(_prop: &str, tier: Tier) -> u64 {
     match tier {
-        Tier::Quick => (N_PHASES * N_EVENTS * 2) as u64 + 1200,
-        Tier::Thorough => (N_PHASES * N_EVENTS * 2) as u64 + 60_000,
+        Tier::Quick => (N_PHASES * N_EVENTS * 2) as u64 + 6000,
+        Tier::Thorough => (N_PHASES * N_EVENTS * 2) as u64 + 300_000,
     }
 }
